@@ -322,6 +322,9 @@ impl Read for ChunkSource {
     fn read(&mut self, buf: &mut [u8]) -> io::Result<usize> {
         if let Some(h) = &self.hist {
             note_activity(h, "source read");
+            // a scheduling point inside fill_data of the real readers (state that only exists
+            // while a reader is inside the source is visible to the other threads)
+            rt::yield_now();
         }
         let c = self.calls;
         self.calls += 1;
@@ -612,6 +615,7 @@ fn call(scn: &ParScn, hist: &SharedHist) -> String {
                 },
                 move || {
                     note_activity(&h3, "dataset_init");
+                        rt::yield_now();
                     if let Some(tx) = &sig_ds {
                         let _ = tx.send(());
                     }
@@ -713,6 +717,7 @@ fn call(scn: &ParScn, hist: &SharedHist) -> String {
                     },
                     move || {
                         note_activity(&h3, "record_data_init");
+                        rt::yield_now();
                         let k = {
                             let mut h = h3.lock().unwrap();
                             h.record_inits += 1;
@@ -726,6 +731,7 @@ fn call(scn: &ParScn, hist: &SharedHist) -> String {
                     },
                     move || {
                         note_activity(&h4, "rset_data_init");
+                        rt::yield_now();
                         let k = {
                             let mut h = h4.lock().unwrap();
                             h.dataset_inits += 1;
@@ -806,6 +812,7 @@ fn call(scn: &ParScn, hist: &SharedHist) -> String {
                     },
                     move || {
                         note_activity(&h3, "record_data_init");
+                        rt::yield_now();
                         let k = {
                             let mut h = h3.lock().unwrap();
                             h.record_inits += 1;
@@ -819,6 +826,7 @@ fn call(scn: &ParScn, hist: &SharedHist) -> String {
                     },
                     move || {
                         note_activity(&h4, "rset_data_init");
+                        rt::yield_now();
                         let k = {
                             let mut h = h4.lock().unwrap();
                             h.dataset_inits += 1;
